@@ -1,11 +1,13 @@
-import Supv.Lemmas.Strat
+import Supv.Lemmas.CmdDist
 
 /-!
 # C14 — Placement obeys the starting strategy and the distribution rule
 
-Model: `Supv.Cmd.chooseInstance` (`strategy.get_supvisors_instance` and the six strategy classes), validated in lock-step with
-the real Starter (`harness/cmdh.py`).  Quantifier: every world (instances, nodes with several instances each, loads), every
-candidate list, expected load and pending-request map.
+Model: `Supv.Cmd.chooseInstance` (`strategy.get_supvisors_instance` and the six strategy classes), `getNode`, and the
+whole-application placement of the non-distributed applications (`distributeSingleInstance`, `distributeSingleNode`, run by
+`ApplicationStartJobs.before` when the job is picked up), validated in lock-step with the real Starter (`harness/cmdh.py`).
+Quantifier: every world (instances, nodes with several instances each, loads), every candidate list, expected load and
+pending-request map, every job (plan, strategy).
 -/
 
 namespace Supv.Props.C14
@@ -125,6 +127,252 @@ theorem C14_requests_counted (w : W) (req : List (Nat × Nat)) (i load : Nat) :
   simp [List.filter_append, List.foldl_append]
   omega
 
+/-! ## The distribution rule -/
+
+/-- **C14 (get_node).**  The node chosen for a whole application is the node of the instance the strategy chooses. -/
+theorem C14_get_node (w : W) (strat : Strategy) (idents : List Nat) (load : Nat) (req : List (Nat × Nat)) (nd : Nat) :
+    getNode w strat idents load req = some nd ↔
+      ∃ i, chooseInstance w strat idents load req = some i ∧ w.node.getD i 0 = nd := by
+  unfold getNode
+  cases chooseInstance w strat idents load req <;> simp
+
+/-- **C14 (get_node, LESS_LOADED_NODE).**  The node chosen hosts a valid candidate and no valid candidate sits on a strictly
+    less loaded node (current load plus the starts already requested there). -/
+theorem C14_get_node_least_loaded (w : W) (idents : List Nat) (load : Nat) (req : List (Nat × Nat)) (nd : Nat)
+    (h : getNode w .lessLoadedNode idents load req = some nd) :
+    ∃ i ∈ validCands w idents load req, w.node.getD i 0 = nd
+      ∧ ∀ j ∈ validCands w idents load req, nodeLoading w req i ≤ nodeLoading w req j := by
+  obtain ⟨i, hi, hnd⟩ := (C14_get_node w _ idents load req nd).mp h
+  refine ⟨i, (C14_choice_valid w _ idents load req i hi).1, hnd, ?_⟩
+  intro j hj
+  have := C14_less_loaded_node_optimal w idents load req i hi j hj
+  unfold lexLt at this
+  simp only at this
+  omega
+
+/-- **C14 (get_node, MOST_LOADED_NODE).** -/
+theorem C14_get_node_most_loaded (w : W) (idents : List Nat) (load : Nat) (req : List (Nat × Nat)) (nd : Nat)
+    (h : getNode w .mostLoadedNode idents load req = some nd) :
+    ∃ i ∈ validCands w idents load req, w.node.getD i 0 = nd
+      ∧ ∀ j ∈ validCands w idents load req, nodeLoading w req j ≤ nodeLoading w req i := by
+  obtain ⟨i, hi, hnd⟩ := (C14_get_node w _ idents load req nd).mp h
+  refine ⟨i, (C14_choice_valid w _ idents load req i hi).1, hnd, ?_⟩
+  intro j hj
+  have := C14_most_loaded_node_optimal w idents load req i hi j hj
+  unfold lexLt at this
+  simp only at this
+  omega
+
+/-- **C14 (get_node, CONFIG).**  The node of the first valid candidate in declared order. -/
+theorem C14_get_node_config (w : W) (idents : List Nat) (load : Nat) (req : List (Nat × Nat)) (nd : Nat)
+    (h : getNode w .config idents load req = some nd) :
+    ∃ i, (validCands w idents load req).head? = some i ∧ w.node.getD i 0 = nd := by
+  obtain ⟨i, hi, hnd⟩ := (C14_get_node w _ idents load req nd).mp h
+  exact ⟨i, C14_config_first w idents load req i hi, hnd⟩
+
+/-- **C14 (SINGLE_INSTANCE: one instance for the whole application).**  `distribute_to_single_instance` either finds no
+    instance and leaves the job as it is (every process then fails with "No resource available"), or gives EVERY planned
+    command the same target: the instance the requested strategy chooses among the application's candidates for the load of
+    the whole start sequence.  The plan keeps its sequence numbers and processes. -/
+theorem C14_single_instance_one_target (w : W) (j j' : AppJobs) (h : distributeSingleInstance w j = .ok j') :
+    (chooseInstance w j.strategy (appPossibleIdentifiers w j.app) (appStartLoad w j.app) (jobLoadRequests w j) = none ∧ j' = j)
+    ∨ ∃ i, chooseInstance w j.strategy (appPossibleIdentifiers w j.app) (appStartLoad w j.app) (jobLoadRequests w j) = some i
+        ∧ j'.identifiers = [i]
+        ∧ (∀ g ∈ j'.planned, ∀ c ∈ g.2, c.target = some i)
+        ∧ j'.planned.map (fun g => (g.1, g.2.map (·.proc))) = j.planned.map (fun g => (g.1, g.2.map (·.proc))) := by
+  unfold distributeSingleInstance at h
+  split at h
+  · rename_i i hi
+    right
+    refine ⟨i, hi, ?_, ?_, ?_⟩
+    · exact (mapPlanned_fields _ _ _ h).2.2.2.2.2
+    · intro g hg c hc
+      obtain ⟨g0, _, _, c0, _, hc0⟩ := mapPlanned_mem _ _ _ h g hg c hc
+      exact (updateIdentifier_ok w c0 c i hc0).1
+    · have := mapPlanned_shape _ (fun c c' hc => (updateIdentifier_ok w c c' i hc).2.1) _ _ h
+      exact this
+  · rename_i hn
+    left
+    simp at h
+    exact ⟨hn, h.symm⟩
+
+/-- **C14 (SINGLE_INSTANCE: able to carry the whole start sequence).**  The instance chosen is one of the application's
+    candidates (permitted by the application's rule, every program of the application known and enabled there), is seen
+    RUNNING, and its node stays at or below 100 with the load of the WHOLE start sequence added. -/
+theorem C14_single_instance_carries (w : W) (j : AppJobs) (i : Nat)
+    (h : chooseInstance w j.strategy (appPossibleIdentifiers w j.app) (appStartLoad w j.app) (jobLoadRequests w j) = some i) :
+    i ∈ appPossibleIdentifiers w j.app ∧ w.instRunning.getD i false = true
+    ∧ nodeLoading w (jobLoadRequests w j) i + appStartLoad w j.app ≤ 100 := by
+  obtain ⟨_, h1, h2, h3⟩ := C14_choice_valid w _ _ _ _ i h
+  exact ⟨h1, h2, h3⟩
+
+/-- **C14 (SINGLE_NODE: the instances selected are those of ONE node).**  `self.identifiers` only holds candidates of the
+    application that run on the node `get_node` chose for the whole application load. -/
+theorem C14_single_node_ids (w : W) (j : AppJobs) (i : Nat) (hi : i ∈ singleNodeIds w j) :
+    i ∈ appPossibleNodeIdentifiers w j.app ∧ i < w.ninst
+    ∧ getNode w j.strategy (appPossibleNodeIdentifiers w j.app) (appStartLoad w j.app) (jobLoadRequests w j) = some (w.node.getD i 0) := by
+  unfold singleNodeIds at hi
+  simp only at hi
+  split at hi
+  · rename_i nd hnd
+    rw [List.mem_filter] at hi
+    obtain ⟨h1, h2⟩ := hi
+    simp only [decide_eq_true_eq] at h2
+    exact ⟨h1, h2.1, by rw [hnd, h2.2]⟩
+  · simp at hi
+
+/-- **C14 (SINGLE_NODE: every process goes to an instance of that node).**  When `distribute_to_single_node` returns, either no
+    instance was selected and the plan is untouched (every process then fails with "No resource available"), or EVERY planned
+    command is left as it was (no selected instance knows the program, has it enabled and can take it: it will fail with
+    "No resource available") or has a target that belongs to the selected instances — so any two targets are on the same node —, is seen RUNNING,
+    knows the program, and whose node stays at or below 100 with the program's load.  The plan keeps its shape. -/
+theorem C14_single_node_one_node (w : W) (j j' : AppJobs) (h : distributeSingleNode w j = .ok j') :
+    j'.identifiers = singleNodeIds w j
+    ∧ (singleNodeIds w j = [] → j'.planned = j.planned)
+    ∧ (singleNodeIds w j ≠ [] → ∀ g ∈ j'.planned, ∀ c ∈ g.2, (∃ g0 ∈ j.planned, c ∈ g0.2) ∨ ∃ i ∈ singleNodeIds w j, c.target = some i
+          ∧ w.instRunning.getD i false = true
+          ∧ enabledOn w c.proc i = true
+          ∧ nodeLoading w (jobLoadRequests w { j with identifiers := singleNodeIds w j }) i + (w.pcfg.getD c.proc default).load ≤ 100)
+    ∧ j'.planned.map (fun g => (g.1, g.2.map (·.proc))) = j.planned.map (fun g => (g.1, g.2.map (·.proc))) := by
+  unfold distributeSingleNode at h
+  simp only at h
+  split at h
+  · rename_i he
+    have hnil : singleNodeIds w j = [] := by simpa using he
+    simp at h; subst h
+    exact ⟨rfl, fun _ => rfl, fun hne => absurd hnil hne, rfl⟩
+  · rename_i hne
+    have hne' : singleNodeIds w j ≠ [] := by simpa using hne
+    refine ⟨(mapPlanned_fields _ _ _ h).2.2.2.2.2, fun hnil => absurd hnil hne', fun _ => ?_, ?_⟩
+    · intro g hg c hc
+      obtain ⟨g0, hg0, _, c0, hc0m, hc0⟩ := mapPlanned_mem _ _ _ h g hg c hc
+      unfold nodeCommand at hc0
+      split at hc0
+      · rename_i i hi
+        right
+        obtain ⟨_, hmem, hrun, hfit⟩ := C14_choice_valid w _ _ _ _ i hi
+        obtain ⟨ht, hp, _, _⟩ := updateIdentifier_ok w c0 c i hc0
+        rw [hp]
+        exact ⟨i, (List.mem_filter.mp hmem).1, ht, hrun, (List.mem_filter.mp hmem).2, hfit⟩
+      · left
+        have : c = c0 := by simpa using hc0.symm
+        exact ⟨g0, hg0, this ▸ hc0m⟩
+    · have := mapPlanned_shape _ (fun c c' hc => by
+        unfold nodeCommand at hc
+        split at hc
+        · exact (updateIdentifier_ok w c c' _ hc).2.1
+        · have : c' = c := by simpa using hc.symm
+          rw [this]) _ _ h
+      exact this
+
+/-- **C14 (SINGLE_NODE: one single node).**  Any two targets decided by `distribute_to_single_node` are on the same node. -/
+theorem C14_single_node_same_node (w : W) (j j' : AppJobs) (h : distributeSingleNode w j = .ok j')
+    (hne : singleNodeIds w j ≠ []) (hnt : ∀ g ∈ j.planned, ∀ c ∈ g.2, c.target = none)
+    (g1 g2 : Nat × List Command) (c1 c2 : Command) (i1 i2 : Nat)
+    (hg1 : g1 ∈ j'.planned) (hc1 : c1 ∈ g1.2) (ht1 : c1.target = some i1)
+    (hg2 : g2 ∈ j'.planned) (hc2 : c2 ∈ g2.2) (ht2 : c2.target = some i2) :
+    w.node.getD i1 0 = w.node.getD i2 0 := by
+  obtain ⟨_, _, hall, _⟩ := C14_single_node_one_node w j j' h
+  have key : ∀ g c i, g ∈ j'.planned → c ∈ g.2 → c.target = some i → ∃ k ∈ singleNodeIds w j, c.target = some k := by
+    intro g c i hg hc ht
+    rcases hall hne g hg c hc with ⟨g0, hg0, hc0⟩ | ⟨k, hk, hkt, _⟩
+    · rw [hnt g0 hg0 c hc0] at ht; cases ht
+    · exact ⟨k, hk, hkt⟩
+  obtain ⟨k1, hk1, hk1t⟩ := key g1 c1 i1 hg1 hc1 ht1
+  obtain ⟨k2, hk2, hk2t⟩ := key g2 c2 i2 hg2 hc2 ht2
+  rw [ht1] at hk1t; rw [ht2] at hk2t
+  cases hk1t; cases hk2t
+  have e1 := (C14_single_node_ids w j i1 hk1).2.2
+  have e2 := (C14_single_node_ids w j i2 hk2).2.2
+  rw [e1] at e2
+  exact Option.some.inj e2
+
+/-- **C14 (a command added to the start of a non-distributed application).**  `on_command_added` (a `start_process` joining a job)
+    leaves the command as it is — distributed application, or no instance selected yet (the job will be placed as a whole when it
+    is picked up), or no selected instance can take the program — or gives it ONE OF THE INSTANCES SELECTED for the application
+    (the single instance; an instance of the single node), chosen by the strategy of the job: seen RUNNING, its node at or below
+    100 with the program's load and the job's load requests. -/
+theorem C14_command_added (w : W) (j : AppJobs) (c c' : Command) (h : onCommandAdded w j c = .ok c') :
+    c' = c ∨ ∃ i, chooseInstance w j.strategy (applicableIdentifiers w j.identifiers c.proc) (w.pcfg.getD c.proc default).load (jobLoadRequests w j) = some i
+        ∧ c'.target = some i ∧ c'.proc = c.proc ∧ i ∈ j.identifiers ∧ w.instRunning.getD i false = true
+        ∧ nodeLoading w (jobLoadRequests w j) i + (w.pcfg.getD c.proc default).load ≤ 100 := by
+  unfold onCommandAdded at h
+  split at h
+  · left; simp at h; exact h.symm
+  · split at h
+    · left; simp at h; exact h.symm
+    · split at h
+      · rename_i i hi
+        right
+        obtain ⟨_, hmem, hrun, hfit⟩ := C14_choice_valid w _ _ _ _ i hi
+        obtain ⟨ht, hp, _, _⟩ := updateIdentifier_ok w c c' i h
+        exact ⟨i, hi, ht, hp, (List.mem_filter.mp hmem).1, hrun, hfit⟩
+      · left; simp at h; exact h.symm
+
+/-- the full-strength statement for the placement INSIDE the node: with LESS_LOADED, the instance given to the second command of
+    a group is not more loaded than another selected RUNNING instance once the first command's load is counted on its target
+    ("loads include starts already requested") -/
+def C14_single_node_requests_counted_statement : Prop :=
+  ∀ (w : W) (j j' : AppJobs), distributeSingleNode w j = .ok j' → j.strategy = .lessLoaded →
+    ∀ g ∈ j'.planned, ∀ (c1 c2 : Command) (rest : List Command) (i1 i2 : Nat), g.2 = c1 :: c2 :: rest →
+      c1.target = some i1 → c2.target = some i2 →
+      ∀ k ∈ j'.identifiers, w.instRunning.getD k false = true →
+        ¬ (instLoading w [(i1, (w.pcfg.getD c1.proc default).load)] k < instLoading w [(i1, (w.pcfg.getD c1.proc default).load)] i2)
+
+/-- two idle instances on one node, a SINGLE_NODE application of two programs (load 10 each, one sequence), LESS_LOADED -/
+def snW : W :=
+  { ninst := 2, me := 0, node := [0, 0], instRunning := [true, true], counter := [0, 0],
+    pcfg := [{ app := 0, startSeq := 1, required := false, waitExit := false, load := 10, sfail := .cont, idents := none, startsecs := 1 },
+             { app := 0, startSeq := 1, required := false, waitExit := false, load := 10, sfail := .cont, idents := none, startsecs := 1 }],
+    acfg := [{ startSeq := 1, strategy := .lessLoaded, distribution := .singleNode }],
+    procs := [{ infos := [(0, { state := .stopped, expected := true, ltime := 0, etime := 0, nowm := 0, disabled := false }),
+                          (1, { state := .stopped, expected := true, ltime := 0, etime := 0, nowm := 0, disabled := false })],
+                state := .stopped },
+              { infos := [(0, { state := .stopped, expected := true, ltime := 0, etime := 0, nowm := 0, disabled := false }),
+                          (1, { state := .stopped, expected := true, ltime := 0, etime := 0, nowm := 0, disabled := false })],
+                state := .stopped }] }
+def snJ : AppJobs := { app := 0, planned := startPlan snW 0 .lessLoaded, strategy := .lessLoaded }
+
+/-- what the code does on the witness: both programs go to instance 0 (the load requests are computed once before the loop) -/
+def snC1 : Command := { proc := 0, strategy := .lessLoaded, target := some 0, waitTicks := 3 }
+def snC2 : Command := { proc := 1, strategy := .lessLoaded, target := some 0, waitTicks := 3 }
+def snJ' : AppJobs := { snJ with identifiers := [0, 1], planned := [(1, [snC1, snC2])] }
+theorem C14_single_node_witness : distributeSingleNode snW snJ = .ok snJ' := by decide +kernel
+
+/-- Known finding `C14:single-node-placement-not-refreshed`: the second program is sent to instance 0 although instance 1 is less
+    loaded once the first program's start (requested on instance 0) is counted. -/
+theorem C14_single_node_requests_counted_refuted : ¬ C14_single_node_requests_counted_statement := by
+  intro h
+  have := h snW snJ snJ' C14_single_node_witness rfl (1, [snC1, snC2]) (by simp [snJ']) snC1 snC2 [] 0 0 rfl rfl rfl 1
+    (by simp [snJ']) (by decide)
+  revert this
+  decide +kernel
+
+/-- **C14 (SINGLE_NODE, inside the node — partial).**  Whatever the job, every target decided by `distribute_to_single_node` is the
+    requested strategy's choice among the selected instances for the program's load and the load requests the job had when it was
+    picked up (its own placements of the same pass are NOT counted): for a job placing a single program this is the full clause. -/
+theorem C14_single_node_in_node_partial (w : W) (j j' : AppJobs) (h : distributeSingleNode w j = .ok j')
+    (hne : singleNodeIds w j ≠ []) :
+    ∀ g ∈ j'.planned, ∀ c ∈ g.2, (∃ g0 ∈ j.planned, c ∈ g0.2) ∨ ∃ i, c.target = some i ∧
+      chooseInstance w j.strategy (applicableIdentifiers w (singleNodeIds w j) c.proc) (w.pcfg.getD c.proc default).load
+        (jobLoadRequests w { j with identifiers := singleNodeIds w j }) = some i := by
+  unfold distributeSingleNode at h
+  simp only at h
+  split at h
+  · rename_i he
+    exact absurd (by simpa using he) hne
+  · intro g hg c hc
+    obtain ⟨g0, hg0, _, c0, hc0m, hc0⟩ := mapPlanned_mem _ _ _ h g hg c hc
+    unfold nodeCommand at hc0
+    split at hc0
+    · rename_i i hi
+      right
+      obtain ⟨ht, hp, _, _⟩ := updateIdentifier_ok w c0 c i hc0
+      exact ⟨i, ht, by rw [hp]; exact hi⟩
+    · left
+      have : c = c0 := by simpa using hc0.symm
+      exact ⟨g0, hg0, this ▸ hc0m⟩
+
 -- non-vacuity: two instances on one node, the loaded one is avoided by LESS_LOADED and preferred by MOST_LOADED
 def exW : W :=
   { ninst := 2, me := 0, node := [0, 0], instRunning := [true, true], counter := [0, 0],
@@ -134,5 +382,11 @@ def exW : W :=
                 running := [0], state := .running }] }
 example : chooseInstance exW .lessLoaded [0, 1] 10 [] = some 1 ∧ chooseInstance exW .mostLoaded [0, 1] 10 [] = some 0
     ∧ chooseInstance exW .config [0, 1] 80 [] = none := by decide
+
+-- non-vacuity: on the same world as a SINGLE_INSTANCE application, both programs get instance 0 (able to carry 20)
+example : (match distributeSingleInstance { snW with acfg := [{ startSeq := 1, strategy := .lessLoaded, distribution := .singleInstance }] } snJ with
+           | .ok j' => j'.planned.map (fun g => g.2.map (fun c => (c.proc, c.target)))
+           | .err _ => []) = [[(0, some 0), (1, some 0)]] := by decide +kernel
+example : singleNodeIds snW snJ = [0, 1] ∧ getNode snW .lessLoaded [0, 1] 20 [] = some 0 := by decide +kernel
 
 end Supv.Props.C14
